@@ -140,6 +140,11 @@ def check(ctx: Ctx) -> None:
 
     check_stream_reassembly(ctx, "C16.d")
 
+    with ctx.obligation("C16.f", "exact-read-per-transport") as ob:
+        from .C08 import check_exact_read
+        for cname in ("Popen2IO", "SocketIO"):
+            check_exact_read(repo, ob, repo.cls(cname).methods["read"])
+
     with ctx.obligation("C16.e", "eof-identity") as ob:
         from ._chan import GB
         f_from = repo.func(f"{GB}.Message.from_io")
